@@ -395,6 +395,11 @@ pub struct Query {
     /// variables whose values must be read from the model
     pub vars: Vec<u32>,
     pub subs: Vec<Subst>,
+    /// tier N eliminations: variable := polynomial over the remaining variables
+    pub psubs: Vec<(u32, Poly)>,
+    /// tier N: the last condition, positively asserted, is a non-trivial polynomial relation with
+    /// constant coefficients among random-oracle outputs only
+    pub oracle_only: bool,
     pub axioms: usize,
 }
 
@@ -524,5 +529,469 @@ pub fn emit_query(ar: &Arena, conds: &[(Cond, bool)], free: Option<u32>, abstrac
     s.push_str(&e.lemmas);
     s.push_str(&asserts);
     s.push_str(&axioms);
-    Some(Query { text: s, vars, subs, axioms: n_ax })
+    Some(Query { text: s, vars, subs, psubs: vec![], oracle_only: false, axioms: n_ax })
+}
+
+// ---------------------------------------------------------------------------------------------
+// Tier N: normal-form atoms. Each equality is expanded to a sparse polynomial over F_r (fractions
+// cleared), constants reduced, cancellations performed, made monic and stripped of common variable
+// factors (x*Q = 0  <=>  x = 0 or Q = 0 in a field). This is a rewriting of the encoding; the solver
+// still decides the query. Falls back to the DAG encoding when the expansion exceeds the cap.
+// ---------------------------------------------------------------------------------------------
+type Mono = Vec<(u32, u32)>;
+#[derive(Clone, Debug)]
+pub struct Poly(pub std::collections::BTreeMap<Mono, Fr>);
+const POLY_CAP: usize = 6000;
+
+impl Poly {
+    fn zero() -> Poly {
+        Poly(Default::default())
+    }
+    fn constant(c: Fr) -> Poly {
+        let mut p = Poly::zero();
+        if c != Fr::from(0u8) {
+            p.0.insert(vec![], c);
+        }
+        p
+    }
+    fn var(v: u32) -> Poly {
+        let mut p = Poly::zero();
+        p.0.insert(vec![(v, 1)], Fr::from(1u8));
+        p
+    }
+    fn add(&self, o: &Poly, neg: bool) -> Poly {
+        let mut r = self.clone();
+        for (m, c) in &o.0 {
+            let c = if neg { -*c } else { *c };
+            let e = r.0.entry(m.clone()).or_insert(Fr::from(0u8));
+            *e += c;
+            if *e == Fr::from(0u8) {
+                r.0.remove(m);
+            }
+        }
+        r
+    }
+    fn mul(&self, o: &Poly) -> Option<Poly> {
+        if self.0.len().saturating_mul(o.0.len()) > 4 * POLY_CAP * 16 {
+            return None;
+        }
+        let mut r = Poly::zero();
+        for (m1, c1) in &self.0 {
+            for (m2, c2) in &o.0 {
+                // merge sorted monomials
+                let mut m: Mono = Vec::with_capacity(m1.len() + m2.len());
+                let (mut i, mut j) = (0, 0);
+                while i < m1.len() || j < m2.len() {
+                    if j == m2.len() || (i < m1.len() && m1[i].0 < m2[j].0) {
+                        m.push(m1[i]);
+                        i += 1;
+                    } else if i == m1.len() || m2[j].0 < m1[i].0 {
+                        m.push(m2[j]);
+                        j += 1;
+                    } else {
+                        m.push((m1[i].0, m1[i].1 + m2[j].1));
+                        i += 1;
+                        j += 1;
+                    }
+                }
+                let e = r.0.entry(m.clone()).or_insert(Fr::from(0u8));
+                *e += *c1 * *c2;
+                if *e == Fr::from(0u8) {
+                    r.0.remove(&m);
+                }
+            }
+            if r.0.len() > POLY_CAP {
+                return None;
+            }
+        }
+        Some(r)
+    }
+    fn neg(&self) -> Poly {
+        Poly(self.0.iter().map(|(m, c)| (m.clone(), -*c)).collect())
+    }
+    fn scale(&self, k: Fr) -> Poly {
+        Poly(self.0.iter().map(|(m, c)| (m.clone(), *c * k)).collect())
+    }
+    fn mentions(&self, v: u32) -> bool {
+        self.0.keys().any(|m| m.iter().any(|(w, _)| *w == v))
+    }
+    /// replace variable `v` by polynomial `r`
+    fn subst(&self, v: u32, r: &Poly) -> Option<Poly> {
+        if !self.mentions(v) {
+            return Some(self.clone());
+        }
+        let mut out = Poly::zero();
+        let mut pows: Vec<Poly> = vec![Poly::constant(Fr::from(1u8))];
+        for (m, c) in &self.0 {
+            let e = m.iter().find(|(w, _)| *w == v).map(|x| x.1).unwrap_or(0) as usize;
+            let rest: Mono = m.iter().filter(|(w, _)| *w != v).copied().collect();
+            let mut base = Poly::zero();
+            base.0.insert(rest, *c);
+            if e == 0 {
+                out = out.add(&base, false);
+            } else {
+                while pows.len() <= e {
+                    let nxt = pows.last().unwrap().mul(r)?;
+                    pows.push(nxt);
+                }
+                out = out.add(&base.mul(&pows[e])?, false);
+            }
+            if out.0.len() > POLY_CAP {
+                return None;
+            }
+        }
+        Some(out)
+    }
+    pub fn eval(&self, asg: &[Fr]) -> Fr {
+        let mut acc = Fr::from(0u8);
+        for (m, c) in &self.0 {
+            let mut t = *c;
+            for (v, e) in m {
+                for _ in 0..*e {
+                    t *= asg[*v as usize];
+                }
+            }
+            acc += t;
+        }
+        acc
+    }
+    fn smt(&self) -> String {
+        if self.0.is_empty() {
+            return "0".to_string();
+        }
+        let terms: Vec<String> = self.0.iter().map(|(m, c)| if m.is_empty() { fr_dec(c) } else { format!("(* {} {})", fr_dec(c), mono_smt(m)) }).collect();
+        if terms.len() == 1 { terms[0].clone() } else { format!("(+ {})", terms.join(" ")) }
+    }
+}
+
+pub struct Normalizer<'a> {
+    ar: &'a Arena,
+    memo: HashMap<Tid, Option<(Poly, Poly)>>,
+}
+impl<'a> Normalizer<'a> {
+    pub fn new(ar: &'a Arena) -> Self {
+        Normalizer { ar, memo: HashMap::new() }
+    }
+    /// (numerator, denominator) of term `t`
+    fn frac(&mut self, t: Tid) -> Option<(Poly, Poly)> {
+        if let Some(r) = self.memo.get(&t) {
+            return r.clone();
+        }
+        let mut stack = vec![(t, false)];
+        while let Some((u, expanded)) = stack.pop() {
+            if self.memo.contains_key(&u) {
+                continue;
+            }
+            let n = self.ar.nodes[u as usize];
+            let kids: Vec<Tid> = match n {
+                Node::Var(_) | Node::Const(_) => vec![],
+                Node::Add(a, b) | Node::Sub(a, b) | Node::Mul(a, b) => vec![a, b],
+                Node::Neg(a) | Node::Inv(a) => vec![a],
+            };
+            if !expanded {
+                stack.push((u, true));
+                for k in kids {
+                    if !self.memo.contains_key(&k) {
+                        stack.push((k, false));
+                    }
+                }
+                continue;
+            }
+            let one = Poly::constant(Fr::from(1u8));
+            let get = |m: &HashMap<Tid, Option<(Poly, Poly)>>, k: Tid| m[&k].clone();
+            let r: Option<(Poly, Poly)> = match n {
+                Node::Var(i) => Some((Poly::var(i), one)),
+                Node::Const(l) => Some((Poly::constant(Fr::from(ark_ff::BigInt(l))), one)),
+                Node::Add(a, b) | Node::Sub(a, b) => (|| {
+                    let (an, ad) = get(&self.memo, a)?;
+                    let (bn, bd) = get(&self.memo, b)?;
+                    let neg = matches!(n, Node::Sub(..));
+                    let trivial = |p: &Poly| p.0.len() == 1 && p.0.get(&vec![]) == Some(&Fr::from(1u8));
+                    if trivial(&ad) && trivial(&bd) {
+                        Some((an.add(&bn, neg), ad))
+                    } else {
+                        let l = an.mul(&bd)?;
+                        let r = bn.mul(&ad)?;
+                        Some((l.add(&r, neg), ad.mul(&bd)?))
+                    }
+                })(),
+                Node::Mul(a, b) => (|| {
+                    let (an, ad) = get(&self.memo, a)?;
+                    let (bn, bd) = get(&self.memo, b)?;
+                    Some((an.mul(&bn)?, ad.mul(&bd)?))
+                })(),
+                Node::Neg(a) => get(&self.memo, a).map(|(n, d)| (n.neg(), d)),
+                Node::Inv(a) => get(&self.memo, a).map(|(n, d)| (d, n)),
+            };
+            self.memo.insert(u, r);
+        }
+        self.memo[&t].clone()
+    }
+    /// numerator polynomial of `a - b`
+    pub fn eq_poly(&mut self, a: Tid, b: Tid) -> Option<Poly> {
+        let (an, ad) = self.frac(a)?;
+        let (bn, bd) = self.frac(b)?;
+        Some(an.mul(&bd)?.add(&bn.mul(&ad)?, true))
+    }
+    /// SMT text of `a == b` in normal form; `vars` collects the variables used
+    pub fn eq_atom(&mut self, a: Tid, b: Tid, vars: &mut BTreeSet<u32>) -> Option<String> {
+        let (an, ad) = self.frac(a)?;
+        let (bn, bd) = self.frac(b)?;
+        let p = an.mul(&bd)?.add(&bn.mul(&ad)?, true);
+        Some(poly_atom(&p, vars))
+    }
+}
+
+fn mono_smt(m: &Mono) -> String {
+    let mut f = vec![];
+    for (v, e) in m {
+        for _ in 0..*e {
+            f.push(format!("x{}", v));
+        }
+    }
+    match f.len() {
+        0 => "1".to_string(),
+        1 => f[0].clone(),
+        _ => format!("(* {})", f.join(" ")),
+    }
+}
+
+fn poly_atom(p: &Poly, vars: &mut BTreeSet<u32>) -> String {
+    if p.0.is_empty() {
+        return "true".to_string();
+    }
+    if p.0.len() == 1 && p.0.contains_key(&vec![]) {
+        return "false".to_string();
+    }
+    // common variable factors
+    let mut common: Option<HashMap<u32, u32>> = None;
+    for m in p.0.keys() {
+        let cur: HashMap<u32, u32> = m.iter().copied().collect();
+        common = Some(match common {
+            None => cur,
+            Some(c) => c.into_iter().filter_map(|(v, e)| cur.get(&v).map(|e2| (v, e.min(*e2)))).collect(),
+        });
+    }
+    let common = common.unwrap_or_default();
+    let mut disj: Vec<String> = vec![];
+    let mut cvars: Vec<u32> = common.keys().copied().collect();
+    cvars.sort();
+    for v in &cvars {
+        vars.insert(*v);
+        disj.push(format!("(= x{} 0)", v));
+    }
+    // quotient by the common monomial, made monic
+    let lead = *p.0.iter().next_back().unwrap().1;
+    let linv = lead.inverse().unwrap();
+    let mut terms: Vec<String> = vec![];
+    let mut nterms = 0;
+    for (m, c) in &p.0 {
+        let q: Mono = m.iter().filter_map(|(v, e)| { let d = e - common.get(v).copied().unwrap_or(0); if d > 0 { Some((*v, d)) } else { None } }).collect();
+        for (v, _) in &q {
+            vars.insert(*v);
+        }
+        let c = *c * linv;
+        nterms += 1;
+        let cs = fr_dec(&c);
+        if q.is_empty() {
+            terms.push(cs);
+        } else if c == Fr::from(1u8) {
+            terms.push(mono_smt(&q));
+        } else {
+            terms.push(format!("(* {} {})", cs, mono_smt(&q)));
+        }
+    }
+    let all_const = p.0.keys().all(|m| m.iter().all(|(v, e)| common.get(v).copied().unwrap_or(0) == *e));
+    if !(nterms == 1 && all_const) {
+        let sum = if terms.len() == 1 { terms[0].clone() } else { format!("(+ {})", terms.join(" ")) };
+        disj.push(format!("(= (mod {} {}) 0)", sum, P_DEC));
+    }
+    match disj.len() {
+        0 => "false".to_string(),
+        1 => disj.pop().unwrap(),
+        _ => format!("(or {})", disj.join(" ")),
+    }
+}
+
+/// strip factors that are variables constrained to be non-zero (x*Q = 0 and x != 0  =>  Q = 0)
+fn strip_nonzero(ar: &Arena, p: &Poly) -> Poly {
+    if p.0.is_empty() {
+        return p.clone();
+    }
+    let mut common: Option<HashMap<u32, u32>> = None;
+    for m in p.0.keys() {
+        let cur: HashMap<u32, u32> = m.iter().copied().collect();
+        common = Some(match common {
+            None => cur,
+            Some(c) => c.into_iter().filter_map(|(v, e)| cur.get(&v).map(|e2| (v, e.min(*e2)))).collect(),
+        });
+    }
+    let common: HashMap<u32, u32> = common.unwrap_or_default().into_iter().filter(|(v, _)| ar.var_nonzero[*v as usize]).collect();
+    if common.is_empty() {
+        return p.clone();
+    }
+    Poly(p.0.iter().map(|(m, c)| (m.iter().filter_map(|(v, e)| { let d = e - common.get(v).copied().unwrap_or(0); if d > 0 { Some((*v, d)) } else { None } }).collect(), *c)).collect())
+}
+
+/// Tier N query: every equality in normal form (order atoms and oracle axioms keep the DAG form),
+/// after eliminating variables defined by positive path equalities (tier E on polynomials).
+pub fn emit_query_norm(ar: &Arena, conds: &[(Cond, bool)]) -> Option<Query> {
+    let mut nz = Normalizer::new(ar);
+    let mut e = Emit::new(ar, false);
+    let mut vars: BTreeSet<u32> = BTreeSet::new();
+    let mut asserts = String::new();
+    // 1. polynomials of all equalities
+    let mut polys: Vec<Option<Poly>> = vec![];
+    for (c, _) in conds {
+        polys.push(match c {
+            Cond::Eq(a, b) => Some(nz.eq_poly(*a, *b)?),
+            Cond::Lt(..) => None,
+        });
+    }
+    let frozen: BTreeSet<u32> = BTreeSet::new();
+    // 2. Gaussian elimination with polynomial right-hand sides
+    let mut psubs: Vec<(u32, Poly)> = vec![];
+    let mut consumed: Vec<bool> = vec![false; conds.len()];
+    loop {
+        let mut found: Option<(usize, u32, Poly)> = None;
+        'outer: for (i, (_, pol)) in conds.iter().enumerate() {
+            if !*pol || consumed[i] {
+                continue;
+            }
+            let p = match &polys[i] {
+                Some(p) => strip_nonzero(ar, p),
+                None => continue,
+            };
+            for (m, c) in &p.0 {
+                if m.len() == 1 && m[0].1 == 1 {
+                    let v = m[0].0;
+                    if ar.var_nonzero[v as usize] || ar.var_bits[v as usize] != 0 || frozen.contains(&v) {
+                        continue;
+                    }
+                    // v must not occur in any other monomial
+                    if p.0.keys().filter(|k| *k != m).any(|k| k.iter().any(|(w, _)| *w == v)) {
+                        continue;
+                    }
+                    let mut rest = p.clone();
+                    rest.0.remove(m);
+                    let r = rest.scale(-(c.inverse().unwrap()));
+                    found = Some((i, v, r));
+                    break 'outer;
+                }
+            }
+        }
+        let (i, v, r) = match found {
+            Some(x) => x,
+            None => break,
+        };
+        consumed[i] = true;
+        for (j, pj) in polys.iter_mut().enumerate() {
+            if j != i {
+                if let Some(p) = pj {
+                    *pj = Some(p.subst(v, &r)?);
+                }
+            }
+        }
+        for (_, pr) in psubs.iter_mut() {
+            *pr = pr.subst(v, &r)?;
+        }
+        psubs.push((v, r));
+    }
+    let mut oracle_only = false;
+    if let Some((Cond::Eq(..), true)) = conds.last().map(|x| (x.0, x.1)) {
+        let i = conds.len() - 1;
+        if !consumed[i] {
+            if let Some(p) = &polys[i] {
+                let p = strip_nonzero(ar, p);
+                let nonconst = p.0.keys().any(|m| !m.is_empty());
+                if nonconst && p.0.keys().all(|m| m.iter().all(|(v, _)| ar.var_kind[*v as usize] == 1)) {
+                    oracle_only = true;
+                }
+            }
+        }
+    }
+    for (i, (c, pol)) in conds.iter().enumerate() {
+        if consumed[i] {
+            continue;
+        }
+        let a = match c {
+            Cond::Eq(..) => {
+                let p = polys[i].as_ref().unwrap();
+                let p = if *pol { strip_nonzero(ar, p) } else { p.clone() };
+                poly_atom(&p, &mut vars)
+            }
+            Cond::Lt(..) => e.atom(*c)?,
+        };
+        if *pol {
+            asserts.push_str(&format!("(assert {})\n", a));
+        } else {
+            asserts.push_str(&format!("(assert (not {}))\n", a));
+        }
+    }
+    for (_, r) in &psubs {
+        for m in r.0.keys() {
+            for (v, _) in m {
+                vars.insert(*v);
+            }
+        }
+    }
+    vars.extend(e.vars.iter().copied());
+    // oracle axioms over the variables of the query (arguments compared in normal form too)
+    let mut axioms = String::new();
+    let mut n_ax = 0;
+    {
+        let ents = &ar.ro_entries;
+        let is_rel = |t: Tid, vars: &BTreeSet<u32>| match ar.nodes[t as usize] {
+            Node::Var(v) => vars.contains(&v),
+            _ => false,
+        };
+        let is_c = |t: Tid| matches!(ar.nodes[t as usize], Node::Const(_));
+        let snapshot = vars.clone();
+        for i in 0..ents.len() {
+            for j in (i + 1)..ents.len() {
+                let (a, b) = (&ents[i], &ents[j]);
+                if a.family != b.family || a.out == b.out {
+                    continue;
+                }
+                let (ra, rb) = (is_rel(a.out, &snapshot), is_rel(b.out, &snapshot));
+                if !((ra && (rb || is_c(b.out))) || (rb && is_c(a.out))) {
+                    continue;
+                }
+                let outs_eq = nz.eq_atom(a.out, b.out, &mut vars)?;
+                if a.class != b.class || a.args.len() != b.args.len() {
+                    axioms.push_str(&format!("(assert (not {}))\n", outs_eq));
+                } else {
+                    let mut conj = String::from("(and true");
+                    for (x, y) in a.args.iter().zip(b.args.iter()) {
+                        if x != y {
+                            conj.push(' ');
+                            conj.push_str(&nz.eq_atom(*x, *y, &mut vars)?);
+                        }
+                    }
+                    conj.push(')');
+                    axioms.push_str(&format!("(assert (=> {} {}))\n", outs_eq, conj));
+                }
+                n_ax += 1;
+            }
+        }
+    }
+    let elim_set: BTreeSet<u32> = psubs.iter().map(|x| x.0).collect();
+    let mut s = String::new();
+    for v in &vars {
+        if elim_set.contains(v) {
+            continue;
+        }
+        let bits = ar.var_bits[*v as usize];
+        let ub = if bits == 0 { P_DEC.to_string() } else { (BigUint::from(1u8) << bits as usize).to_string() };
+        let lb = if ar.var_nonzero[*v as usize] { "1" } else { "0" };
+        s.push_str(&format!("(declare-const x{v} Int)\n(assert (and (<= {lb} x{v}) (< x{v} {ub})))\n", v = v, ub = ub, lb = lb));
+    }
+    for (v, r) in &psubs {
+        s.push_str(&format!("(define-fun x{} () Int {})\n", v, r.smt()));
+    }
+    s.push_str(&e.out);
+    s.push_str(&asserts);
+    s.push_str(&axioms);
+    let elim: BTreeSet<u32> = psubs.iter().map(|x| x.0).collect();
+    Some(Query { text: s, vars: vars.into_iter().filter(|v| !elim.contains(v)).collect(), subs: vec![], psubs, oracle_only, axioms: n_ax })
 }
